@@ -652,7 +652,37 @@ func rulesC11(c *Ctx) {
 		c.Check(okSid, "serveStateless:no-session-id-by-default", f, nil, "the ephemeral transport's SessionID is assigned only under the compatibility switch (\"\" otherwise, so no Mcp-Session-Id is ever announced)")
 		// 405
 		ok405 := false
+		{
+			// decided by evaluation: with a method that is none of those the handler names (every comparison of the
+			// method with a constant fails), the transport is unreachable, 405 is the only status and Allow is set
+			seen := g.ReachUnder(anyOf(methodIs("\x00other"))(f), nil)
+			c.paths++
+			statuses := map[int64]bool{}
+			allow, serve := false, false
+			for v := 0; v < g.N; v++ {
+				if !seen[v] || g.Node(v) == nil {
+					continue
+				}
+				if st := c.httpStatusIn(f, g.Node(v)); st != 0 {
+					statuses[st] = true
+				}
+				for _, call := range f.AllCalls(g.Node(v), false) {
+					if fn := f.Callee(call); fn != nil && fn.Name() == "Set" && len(call.Args) == 2 {
+						if s, ok := f.ConstString(call.Args[0]); ok && s == "Allow" {
+							allow = true
+						}
+					}
+					if fn := f.Callee(call); fn != nil && (fn.Name() == "ServeHTTP" || fn.Name() == "connectStreamable") {
+						serve = true
+					}
+				}
+			}
+			ok405 = len(statuses) == 1 && statuses[405] && allow && !serve
+		}
 		for _, cv := range g.condVertices() {
+			if ok405 {
+				break
+			}
 			cond := g.Node(cv - 1).(ast.Expr)
 			if x, y, op, isCmp := binaryCmp(cond); isCmp && op == token.NEQ && f.FieldPath(x) == "Request.Method" {
 				if s, isC := f.ConstString(y); isC && s == "POST" {
